@@ -2,12 +2,12 @@ package graphsim
 
 import (
 	"context"
-	"runtime/debug"
 	"crypto/sha256"
 	"encoding/hex"
 	"errors"
 	"fmt"
 	"io"
+	"runtime/debug"
 	"sort"
 	"strings"
 
@@ -32,14 +32,14 @@ type Call struct {
 
 // CallResult is what the caller observed.
 type CallResult struct {
-	Out      M
-	Err      error
-	NChunks  int
-	Panic    any
-	Done     bool
-	RetSeq   int // sequence number at which the call returned (for streams: the call, not the reading)
-	EndSeq   int
-	Stopped  bool // the caller closed the output before its end
+	Out       M
+	Err       error
+	NChunks   int
+	Panic     any
+	Done      bool
+	RetSeq    int // sequence number at which the call returned (for streams: the call, not the reading)
+	EndSeq    int
+	Stopped   bool // the caller closed the output before its end
 	StreamErr bool // the error arrived as an error item on the output stream
 }
 
